@@ -105,7 +105,9 @@ def validate_chunks(pid, mode, chunks, outdir, tag, pairs=None, jobs=8, tier="qu
         return r
 
     with cf.ThreadPoolExecutor(max_workers=jobs) as ex:
-        futs = [ex.submit(one, i, ch) for i, ch in enumerate(chunks)]
+        # the largest trace files first: the long poles start at once
+        order = sorted(range(len(chunks)), key=lambda i: -os.path.getsize(chunks[i]))
+        futs = [ex.submit(one, i, chunks[i]) for i in order]
         for f in futs:
             r = f.result()
             results.append(r)
